@@ -133,7 +133,7 @@ def check_objects(res, rng, t, reps):
             if kind in ('point_pair', 'circle', 'sphere'):
                 positions += ['dilated', 'concentric']
             if kind in ('line', 'plane'):
-                positions += ['parallel']
+                positions += ['parallel', 'antiparallel']
             positions += ['intersecting']
             if kind in ('point_pair', 'circle'):
                 # positions in which C*~C (C = 1 + X2*X1) is a negative scalar: the 'infinite roots' branch of the normalising root, R*~R = -1
@@ -179,6 +179,10 @@ def check_objects(res, rng, t, reps):
                     # translate along a direction not in the flat
                     V = t.generate_translation_rotor(2.0 * t.e1 + 1.0 * t.e2 - 3.0 * t.e3)
                     X2 = (V * X1 * ~V).normal()
+                elif position == 'antiparallel':
+                    # parallel, at another place, with the opposite orientation (facing planes / lines running the other way): 1 + X2*X1 is null
+                    V = t.generate_translation_rotor(float(rng.choice([1.0, 2.0, 0.5])) * t.e1 + float(rng.choice([1.0, -2.0])) * t.e2 - 3.0 * t.e3)
+                    X2 = -(V * X1 * ~V).normal()
                 elif position == 'intersecting':
                     # share the first defining point
                     p2 = [pts[0]] + [ipt(rng, t) for _ in range(NPTS[kind] - 1)]
@@ -248,6 +252,32 @@ def check_roots_logs(res, rng, t, reps):
                     back = rp.ga_exp(rp.ga_log(R))
                     if not pm_near(back, R, mag(R), 1e-6):
                         res.violate('ga_exp(ga_log(R)) != +-R', inp, back.value.tolist(), R.value.tolist(), dict(site, op='ga_log'))
+                with common.guard(res, 'TR rotors without rotation part', site, inp):
+                    # a pure translation is a TR rotor too: exp / log are exact there (the rotation angle is exactly 0)
+                    Tp = t.generate_translation_rotor(float(rng.integers(-4, 5)) * t.e1 + float(rng.integers(-4, 5)) * 0.5 * t.e2 + float(rng.integers(1, 5)) * 0.25 * t.e3)
+                    res.case(('pure-translation', str(Tp.value.tolist())), nontrivial=True)
+                    res.count('pure_translation')
+                    back = rp.ga_exp(rp.ga_log(Tp))
+                    if not pm_near(back, Tp, mag(Tp), 1e-9):
+                        res.violate('ga_exp(ga_log(R)) != +-R for a pure translation rotor', dict(inp, R=Tp.value.tolist()), back.value.tolist(), Tp.value.tolist(),
+                                    dict(site, op='ga_log', case='pure_translation'))
+                    # interpolation between equal poses
+                    for f_ in (0.0, 0.5, 1.0):
+                        ie = rp.interpolate_TR_rotors(R, R, f_)
+                        if not pm_near(ie, R, mag(R), 1e-9):
+                            res.violate('interpolate_TR_rotors between equal poses does not return that pose', dict(inp, fraction=f_), ie.value.tolist(), R.value.tolist(),
+                                        dict(site, op='interpolate_TR', case='equal'))
+                    # poses with the same attitude (the relative rotor is a pure translation up to rounding): fraction 0 returns the first pose;
+                    # fraction 1 is where arccos of a scalar part within rounding of 1 is ill-conditioned (recorded finding)
+                    Rs = (Tp * R).normal()
+                    i0 = rp.interpolate_TR_rotors(Rs, R, 0.0)
+                    if not near(i0, R, mag(R)):
+                        res.violate('interpolate_TR_rotors does not return its first end point at fraction 0', dict(inp, case='same attitude'), i0.value.tolist(), R.value.tolist(),
+                                    dict(site, op='interpolate_TR', case='same_attitude_0'))
+                    i1 = rp.interpolate_TR_rotors(Rs, R, 1.0)
+                    if not pm_near(i1, Rs, mag(Rs), 1e-6):
+                        res.violate('interpolate_TR_rotors does not return its second end point at fraction 1 for poses with the same attitude', dict(inp, case='same attitude'),
+                                    i1.value.tolist(), Rs.value.tolist(), dict(site, op='interpolate_TR', case='same_attitude_1'))
                 with common.guard(res, 'interpolate_TR_rotors', site, inp):
                     R0 = rigid(rng, t, 'general')
                     i0, i1 = rp.interpolate_TR_rotors(R, R0, 0.0), rp.interpolate_TR_rotors(R, R0, 1.0)
